@@ -31,6 +31,9 @@ func init() {
 			{ID: "C18-R5", Title: "VM-level caches are filled only after the fallible work succeeded (shared with C07-R5)", Floor: 1, Run: c07r5},
 			{ID: "C18-R11", Title: "the halt flag is cleared on every successful start", Floor: 1, Run: haltClearedOnEveryStart},
 			{ID: "C18-R12", Title: "the declaration pre-pass walks every statement", Floor: 2, Run: prePassVisitsEveryStatement},
+			{ID: "C18-R13", Title: "Run resumes at the saved ip only for code that is still loaded (shared with C07)", Floor: 1, Run: savedIPBelongsToLoadedCode},
+			{ID: "C18-R14", Title: "the stack pointer is advanced only after the slot was written (it always indexes the array)", Floor: 1, Run: spStaysInRange},
+			{ID: "C18-R15", Title: "a failure kept in the compiler is cleared before compiling", Floor: 1, Run: stickyFailureClearedBeforeCompiling},
 		},
 	})
 }
